@@ -205,13 +205,13 @@ impl Gatekeeper {
         // For updates, the difference between the existing appointment size and the update is computed.
         let mut registered_users = self.registered_users.lock().unwrap();
         let user_info = registered_users.get_mut(&user_id).unwrap();
-        let used_blob_size = self
+        // An appointment that is not stored yet is not using any slot.
+        let used_slots = self
             .dbm
             .lock()
             .unwrap()
             .get_appointment_length(uuid)
-            .unwrap_or(0);
-        let used_slots = compute_appointment_slots(used_blob_size, ENCRYPTED_BLOB_MAX_SIZE);
+            .map_or(0, |size| compute_appointment_slots(size, ENCRYPTED_BLOB_MAX_SIZE));
 
         let required_slots =
             compute_appointment_slots(appointment.encrypted_blob().len(), ENCRYPTED_BLOB_MAX_SIZE);
